@@ -5267,7 +5267,7 @@ class ParseCtx:
                     self._add_case_clause(case_blocks, block)
                 else:
                     for clause in block.children[1:]:
-                        priorities[self._add_case_clause(case_blocks, clause)] = int(block.children[0].value)
+                        priorities[self._add_case_clause(case_blocks, clause)] = self._convert_int(block.children[0].value)
 
             return ProgramData.imbue(ProgramData.imbue(CaseNode(case_blocks, greedy=True, priorities=priorities), 
                 DTAG.SOURCE_LINE, stmt.meta.line),
